@@ -50,6 +50,10 @@ type memNet struct {
 	down map[string]bool
 }
 
+// memKeepAlive: set before the first stack is built by the one driver that observes the transport's behaviour on kept-alive
+// connections (connloss.go); everywhere else every provider call opens its own connection.
+var memKeepAlive bool
+
 var (
 	curNet      *memNet
 	curNetMu    sync.Mutex
@@ -59,7 +63,7 @@ var (
 func installMemNet() {
 	installOnce.Do(func() {
 		tr := http.DefaultTransport.(*http.Transport)
-		tr.DisableKeepAlives = true
+		tr.DisableKeepAlives = !memKeepAlive
 		tr.DialContext = func(ctx context.Context, network, addr string) (net.Conn, error) {
 			curNetMu.Lock()
 			n := curNet
